@@ -87,8 +87,9 @@ def run(rep, tier, seed):
         if m != i:
             bad.append(("model-vs-impl", "correspondence broken: MetaModel.v vs mmd.c: model=%s impl=%s" % (m[:120], i[:120]), c, src)); continue
         ncorr += 1
-    # ---- update sequences (oracle: read back; others and body unchanged)
+    # ---- update sequences (oracle: read back; others and body unchanged); every call is also put to the model of the update function
     nupd = 0
+    ucalls = []
     for src, exp, term, endoff in blocks[: (150 if tier == "quick" else 4000)]:
         if term == "eof":
             continue                              # adding a key to a block that ends at EOF without newline: outside the documented use
@@ -98,6 +99,7 @@ def run(rep, tier, seed):
             v = rng.choice(VALS)
             out = common.run_lines(har, ["U %s %s %s" % (cur.encode().hex(), k.encode().hex(), v.encode().hex())])[0]
             nupd += 1
+            ucalls.append(("U %s %s %s" % (cur.encode().hex() or "-", k.encode().hex(), v.encode().hex()), out, cur, src))
             if out.startswith("CRASH"):
                 bad.append(("impl-crash", "update crashed: " + out[:200], cur, src)); break
             new = bytes.fromhex(out).decode("utf-8", "replace") if out != "-" else ""
@@ -115,6 +117,54 @@ def run(rep, tier, seed):
                 bad.append(("update-changed-body", "updating %r changed the text after the metadata block" % k, cur, src)); okk = False
             if not okk: break
             cur = new
+    # ---- the same for blocks in which a key occurs twice (possibly in another spelling): whatever value the query returns for it
+    # before, after an update it returns the new one, the other keys keep theirs and the body stays
+    ndup = 0
+    for _ in range(60 if tier == "quick" else 1500):
+        keys = rng.sample(KEYWORDS, rng.randint(2, 4))
+        j = rng.randrange(len(keys)); pos = rng.randint(j + 1, len(keys))
+        twin = rng.choice([keys[j], keys[j].upper(), keys[j].lower(), keys[j] + " "])
+        order = keys[:pos] + [twin] + keys[pos:]
+        body = rng.choice(["body text\n", "# Head\n\ntext *em*\n", "", "notakey: in body\n"])
+        src = "\n".join("%s: %s" % (k, rng.choice(VALS)) for k in order) + "\n\n" + body
+        tail = ("\n" + body).encode()
+        rs = common.run_lines(har, ["Q %s %s" % (src.encode().hex(), k.encode().hex()) for k in keys])
+        vals = {}
+        for k, r in zip(keys, rs):
+            f = r.split(" ")
+            vals[k] = bytes.fromhex(f[3]).decode("utf-8", "replace") if len(f) > 3 and f[3] not in ("NULL", "-") else None
+        cur = src
+        for _ in range(rng.randint(1, 3)):
+            k = rng.choice(keys[j:j + 1] * 2 + keys); v = rng.choice(VALS)
+            out = common.run_lines(har, ["U %s %s %s" % (cur.encode().hex(), k.encode().hex(), v.encode().hex())])[0]
+            nupd += 1; ndup += 1
+            ucalls.append(("U %s %s %s" % (cur.encode().hex() or "-", k.encode().hex(), v.encode().hex()), out, cur, src))
+            if out.startswith("CRASH"):
+                bad.append(("impl-crash", "update crashed: " + out[:200], cur, src)); break
+            new = bytes.fromhex(out).decode("utf-8", "replace") if out != "-" else ""
+            vals[k] = norm_val(v)
+            rs = common.run_lines(har, ["Q %s %s" % (new.encode().hex(), kk.encode().hex()) for kk in keys])
+            okk = True
+            for kk, r in zip(keys, rs):
+                f = r.split(" ")
+                gv = bytes.fromhex(f[3]).decode("utf-8", "replace") if len(f) > 3 and f[3] not in ("NULL", "-") else None
+                if gv != vals[kk]:
+                    bad.append(("update-readback" if kk == k else "update-changed-other-key",
+                                "a key occurs twice in the block: after updating %r to %r, key %r reads %r instead of %r" % (k, v, kk, gv, vals[kk]), cur, src)); okk = False; break
+            if okk and not new.encode().endswith(tail):
+                bad.append(("update-changed-body", "a key occurs twice in the block: updating %r changed the text after the metadata block" % k, cur, src)); okk = False
+            if not okk: break
+            cur = new
+    rep.cov["updates_on_blocks_with_a_repeated_key"] = ndup
+    # MetaModel.meta_update (the function the update theorems are about) against the compiled update, on every call made above
+    umodel = common.run_lines_par(drv, [u[0] for u in ucalls], args=["meta"], timeout=900)
+    nuc = 0
+    for (line, out, cur, src), m in zip(ucalls, umodel):
+        if out.startswith("CRASH"): continue
+        if (m if m != "-" else "") != (out if out != "-" else ""):
+            bad.append(("model-vs-impl", "correspondence broken: MetaModel.meta_update vs mmd_engine_update_metavalue_for_key: model=%s impl=%s" % (m[:160], out[:160]), cur, src))
+        else: nuc += 1
+    rep.cov["updates_matching_model"] = nuc
     # ---- CLI -m / -e
     cli = os.path.join(common.build_variant("asan"), "multimarkdown")
     ncli = 0
